@@ -1,6 +1,7 @@
 ----------------------------- MODULE OutlineSys -----------------------------
 (* The bookmark/outline life-cycle as a state machine: one action per public call.             *)
-(*   AddBookmark* ; AdjustZeroPages | SkipAdjust ; BuildOutline ; LinkCatalog ; GetToc ;       *)
+(*   AddBookmark* ; AdjustZeroPages | SkipAdjust ; BuildOutline ; AddObject* ;                 *)
+(*   LinkCatalog | LinkNewCatalog ; GetToc ;                                                   *)
 (*   SaveLoad(table) ; GetToc ; SaveLoad(stream) ; GetToc                                      *)
 (* `adds` is the declarative forest (history of the adds), `bm`/`doc` the impl-shaped state.   *)
 (* The document has np pages; page p is object 2 + p (1 = catalog, 2 = Pages), max_id = np+2.  *)
@@ -10,6 +11,9 @@ EXTENDS Outline
 
 CONSTANTS MaxB,        \* bound on the number of bookmarks
           NPs,         \* set of page counts
+          MaxPost,     \* bound on the allocations between build_outline and the catalog link
+          Reserve,     \* TRUE: build_outline leaves max_id past every id it used (as the code does);
+                       \* FALSE: only past the root (deviation used as a control: Reserved must then fail)
           Titles       \* sequence of pairwise distinct titles; bookmark k gets Titles[((k-1+rot) % Len) + 1]
 
 VARIABLES np, rot, adds, bm, doc, pc, tocs, adjusted
@@ -21,7 +25,8 @@ PageIds(n) == [p \in 1..n |-> 2 + p]
 
 TitleFor(k) == Titles[((k - 1 + rot) % Len(Titles)) + 1]
 
-NoDoc == [root |-> 0, maxid |-> 0, objs |-> NoObjs, linked |-> FALSE, xref |-> "stream"]
+NoDoc == [root |-> 0, maxid |-> 0, objs |-> NoObjs, linked |-> FALSE, xref |-> "stream", later |-> <<>>,
+          post |-> 0, link |-> "none"]
 
 Init ==
     /\ np \in NPs
@@ -57,13 +62,28 @@ SkipAdjust ==
 BuildOutline ==
     /\ pc = "build"
     /\ LET b == ImplBuild(bm, doc.maxid) IN
-       doc' = [doc EXCEPT !.root = b.root, !.maxid = b.maxid, !.objs = b.objs]
-    /\ pc' = "link"
+       doc' = [doc EXCEPT !.root = b.root, !.maxid = IF Reserve THEN b.maxid ELSE b.root, !.objs = b.objs]
+    /\ pc' = "post"
     /\ UNCHANGED <<np, rot, adds, bm, tocs, adjusted>>
 
+\* any further allocation on the document after the outline was built (add_object stores, new_object_id
+\* only reserves; the harness alternates, starting with add_object)
+AddObject ==
+    /\ pc = "post" /\ doc.post < MaxPost
+    /\ doc' = [ImplAlloc(doc, doc.post % 2 = 0) EXCEPT !.post = @ + 1]
+    /\ UNCHANGED <<np, rot, adds, bm, pc, tocs, adjusted>>
+
+\* /Outlines set in the existing catalog through catalog_mut()
 LinkCatalog ==
-    /\ pc = "link"
-    /\ doc' = [doc EXCEPT !.linked = TRUE]
+    /\ pc = "post"
+    /\ doc' = [doc EXCEPT !.linked = TRUE, !.link = "mut"]
+    /\ pc' = "toc"
+    /\ UNCHANGED <<np, rot, adds, bm, tocs, adjusted>>
+
+\* a new catalog carrying /Outlines is created with add_object and made the trailer's Root
+LinkNewCatalog ==
+    /\ pc = "post"
+    /\ doc' = [ImplAlloc(doc, TRUE) EXCEPT !.linked = TRUE, !.link = "new"]
     /\ pc' = "toc"
     /\ UNCHANGED <<np, rot, adds, bm, tocs, adjusted>>
 
@@ -80,7 +100,8 @@ SaveLoad ==
     /\ pc' = "toc"
     /\ UNCHANGED <<np, rot, adds, tocs, adjusted>>
 
-Next == AddBookmark \/ AdjustZeroPages \/ SkipAdjust \/ BuildOutline \/ LinkCatalog \/ GetToc \/ SaveLoad
+Next == AddBookmark \/ AdjustZeroPages \/ SkipAdjust \/ BuildOutline \/ AddObject \/ LinkCatalog \/ LinkNewCatalog
+           \/ GetToc \/ SaveLoad
 
 Spec == Init /\ [][Next]_vars
 =============================================================================
